@@ -116,6 +116,9 @@ impl Gen {
             vec![b("EXPIRE"), k.clone(), b("9223372036854776")],
             // (PX / EXAT at i64::MAX are accepted by the code with a saturated deadline far beyond what the
             //  projection can carry in TLC integers: left out)
+            // non-default server settings that change which inputs count as too large
+            vec![b("CONFIG"), b("SET"), b("proto-max-bulk-len"), b("64")], vec![b("CONFIG"), b("SET"), b("proto-max-bulk-len"), b("16")],
+            vec![b("CONFIG"), b("SET"), b("proto-max-bulk-len"), b("512000000")], vec![b("CONFIG"), b("GET"), b("proto-max-bulk-len")],
             vec![b("FOOBAR"), k.clone()], vec![b("GET")], vec![b("SET"), k.clone()], vec![b("SET"), k.clone(), v.clone(), b("EX"), b("abc")],
             vec![b("SET"), k.clone(), v.clone(), b("NX"), b("XX")], vec![b("SET"), k.clone(), v.clone(), b("EX"), b("10"), b("PX"), b("10")],
             vec![b("ZADD"), k.clone(), b("NX"), b("XX"), b("1"), b("a")], vec![b("ZADD"), k.clone(), b("notafloat"), b("a")], vec![b("ZADD"), k.clone(), b("1")],
